@@ -328,3 +328,16 @@ def take_restore(db, ctx):
     tolerant = "unwrap_or_else" in render(r.hir)
     ctx.ob("resolve_best_path|tolerates-None", tolerant, "a tokenizer whose previous analysis failed after the take (top_path == None) still works: "
                                                          "resolve_best_path falls back to a new Vec (unwrap_or_else): %s" % tolerant, fn=r)
+
+
+def reset_clears_results(db, ctx):
+    """shared with C01 / C03: analyses that return before the path is rebuilt must not expose the previous analysis' morphemes"""
+    tr = db.one("reset", "StatefulTokenizer")
+    ev = events(db, tr, param_summaries(db))
+    killed = {tgt[2] for kind, tgt, how, node in ev if kind == "kill" and tgt[0] == "field"}
+    ctx.ob("StatefulTokenizer::reset|clears-results", "top_path" in killed,
+           "StatefulTokenizer::reset clears the previous result path (fields killed: %s): do_tokenize returns early for an empty normalised text and for "
+           "too-long input, i.e. before resolve_best_path could clear anything, and collect_results swaps whatever the tokenizer holds into the list" % sorted(killed), fn=tr)
+    d = db.one("do_tokenize", "StatefulTokenizer")
+    early = [ek for ifn, cond, pol, ek, ps in guarded_exits(d.hir) if ek in ("ok", "ret")]
+    ctx.ob("do_tokenize|has-early-ok-return", len(early) >= 1, "do_tokenize has %d early successful returns (why the clear must live in reset())" % len(early), fn=d, nontrivial=False)
